@@ -5,7 +5,19 @@ from runner import Harness
 def params(ctx):
     q = ctx.tier == "quick"
     n, nb = (4, 4) if q else (6, 5)
-    return {"N": n, "NB": nb, "UNW": n + 3, "UNWB": nb + 4}
+    return {"N": n, "NB": nb, "UNW": n + 3, "UNWB": nb + 4, "LATMOD": "verif_c13_lat", "LATNAME": "c13_lattice_providers"}
+
+
+LAT_FNS = ["LatticeBuilder::build_lattice", "LatticeBuilder::provide_oovs", "LexiconSet::lookup (lexicon without keys)", "Lattice::{reset,has_previous_node,insert,connect_eos}",
+           "CreatedWords::{add_word,is_empty}", "SimpleOovPlugin::provide_oov", "InputBuffer::{build,cat_at_char,can_bow,get_word_candidate_length}"]
+
+
+def lat_harness(name, rust_mod, kernel):
+    return Harness(name, "analysis__stateful_tokenizer", LAT_FNS,
+                   "2-character ASCII text, each character's class set any combination of ALPHA, NOOOVBOW, NOOOVBOW2 or KANJI alone; providers: a harness provider offering a one-character word wherever it is asked, then the repository's SimpleOovPlugin as fallback; no dictionary words",
+                   kernel=kernel, assumptions=["no dictionary word matches (lexicon without keys)", "1x1 zero connection matrix (C02 decides costs)"],
+                   fs_array=True, timeout_s=3000, mem_gb=40, rust_mod=rust_mod, tiers=("thorough",), required=False,
+                   outside=["texts longer than 2 characters", "dictionary words ending at positions that cannot start a word (the can_bow filter on lookups)", "the MeCab / regex providers themselves"])
 
 
 def harnesses(ctx):
@@ -25,6 +37,8 @@ def harnesses(ctx):
         Harness("c13_created_words", "analysis__created", ["CreatedWords::single", "CreatedWords::add_word", "CreatedWords::add", "CreatedWords::has_word", "CreatedWords::is_empty"],
                 "two arbitrary added lengths and one queried length, all i64 >= 1",
                 kernel="C13-c created-length set: exact below 64, conservative (never No for a present length) above", timeout_s=600, mem_gb=8),
+        lat_harness("c13_lattice_providers", "verif_c13_lat",
+                    "C13-d providers are consulted exactly at reachable positions whose character is not NOOOVBOW/NOOOVBOW2; the last provider is asked again where nothing exists"),
     ]
 
 
@@ -37,6 +51,7 @@ MANIFEST = dict(
     text=("Solver-decided for every class assignment of N characters: cat_continuous_len equals the distance to the end of the class run containing the character, with runs cut "
           "greedily from the start of the text as the statement defines them (so a base character is not separated from following marks because of what follows); can_bow and "
           "get_word_candidate_length equal the documented word-start rules (NOOOVBOW, NOOOVBOW2, same-script continuation) for every class combination; the created-length bit set is "
-          "exact below 64 and conservative above for all i64 lengths. Candidate enumeration by the MeCab/regex providers and provider ordering are outside."),
+          "exact below 64 and conservative above for all i64 lengths. Candidate enumeration by the MeCab/regex providers and the loop that consults the providers (LatticeBuilder::build_lattice: "
+          "a thorough-only optional harness over a 2-character text with symbolic classes exists, measured out of memory at 24 GB) are outside."),
     note="N = 4 (quick) / 6 (thorough) characters; ASCII text for the word-start harness. Trusted: Kani/CBMC/cadical; the reference implementations in the harness.",
 )
